@@ -4,6 +4,10 @@ import json, os
 ROOT = os.path.dirname(os.path.dirname(os.path.abspath(__file__)))
 TRUST = "TLC 1.8 and the CommunityModules Json/IOUtils; the Rust harness (vh) that drives the public API of /repo's crates; rustc/cargo"
 CHECKS = {
+ "C07": ("DESIGN.md section 6 C07",
+         "Catalogue.tla defines the input space by argument kind (numbers incl. huge / decimal / non-numeric, multi-byte and quoted texts, live / released / never-issued / wrong-kind handles, flags, names, paths) and reads the live registry, so every registered command outside the property's exclusions is enumerated (untyped pool at arity 0..2 + reduced arity 3, typed products for 48 signatures); random stateful behaviours come from C07_Seq; all invocations, sequences, random script texts and two probes run in worker subprocesses under a per-invocation watchdog and a memory limit, and every case is validated by the Invoke/Return trace specification: a panic, abort or hang has no counterpart.",
+         "input-space exploration: the oracle is only 'returns a documented result kind'; pools are finite representatives",
+         "TLA+ catalogue + TLC enumeration; spec->impl replay in subprocesses; impl->spec trace validation"),
  "C20": ("DESIGN.md section 6 C20",
          "Cli.tla gives, for every invocation form and every script of the bounded builder (outcome classes success / crash / non-zero exit / zero exit / parse error / missing file; label, output and command spellings with and without upper-case letters), the exit status, the presence of an 'Error:' line and whether the script may run (lint must not); the duck binary built from /repo's tree is run as a subprocess on every case and also compared with the in-process library run of the same script (success and captured output); random longer scripts are validated by TLC.",
          "small-scope exhaustive on scripts x forms; the REPL is not covered",
